@@ -72,6 +72,10 @@ type VerifConfig struct {
 
 // VerifNewWorld creates a daemon with the given peers; nothing is started, the harness drives every step.
 func VerifNewWorld(cfg *VerifConfig, conns []VerifConn) *VerifInstance {
+	return verifNewDaemon(cfg, conns, true)
+}
+
+func verifNewDaemon(cfg *VerifConfig, conns []VerifConn, withPeers bool) *VerifInstance {
 	InitObjects()
 	lmd := NewLMDInstance()
 	lmd.Config = NewConfig([]string{})
@@ -121,6 +125,9 @@ func VerifNewWorld(cfg *VerifConfig, conns []VerifConn) *VerifInstance {
 	for i := range conns {
 		con := &Connection{Name: conns[i].Name, ID: conns[i].ID, Source: conns[i].Source, Fallback: conns[i].Fallback, Flags: conns[i].Flags}
 		lmd.Config.Connections = append(lmd.Config.Connections, *con)
+		if !withPeers {
+			continue
+		}
 		peer := NewPeer(lmd, con)
 		lmd.PeerMap[con.ID] = peer
 		lmd.PeerMapOrder = append(lmd.PeerMapOrder, con.ID)
@@ -128,6 +135,24 @@ func VerifNewWorld(cfg *VerifConfig, conns []VerifConn) *VerifInstance {
 	lmd.nodeAccessor = NewNodes(lmd, []string{}, "")
 
 	return &VerifInstance{Lmd: lmd}
+}
+
+// VerifExportImport runs the real Exporter (-export) against the configured connections and loads the
+// snapshot with the real importer (-import) into a fresh daemon, which is returned.
+func VerifExportImport(cfg *VerifConfig, conns []VerifConn, file string) (*VerifInstance, error) {
+	src := verifNewDaemon(cfg, conns, false)
+	src.Lmd.flags.flagExport = file
+	ex := &Exporter{lmd: src.Lmd}
+	if err := ex.Export(file); err != nil {
+		return nil, fmt.Errorf("export: %w", err)
+	}
+	dst := verifNewDaemon(cfg, nil, false)
+	dst.Lmd.flags.flagImport = file
+	if err := initializePeersWithImport(dst.Lmd, file); err != nil {
+		return nil, fmt.Errorf("import: %w", err)
+	}
+
+	return dst, nil
 }
 
 func errString(err error) string {
